@@ -47,6 +47,10 @@ def parse(stdout, is_json):
     """Presentation-independent result: [(basename, verdict, [(level, code, line, col)])]."""
     if is_json:
         last = [l for l in stdout.split("\n") if l.strip()][-1]
+        if not last.startswith("{") and '{"files"' in last:
+            # -d/-dd dump the tokens of each statement; when the file does not end in a newline the dump of the last
+            # statement does not either, and the document follows on the same line (presentation, not findings)
+            last = last[last.rindex('{"files"'):]
         doc = json.loads(last)
         out = []
         for f in doc["files"]:
@@ -64,7 +68,12 @@ def parse(stdout, is_json):
             continue
         m = VERDICT.match(line)
         if m and "\t" not in line and " - " not in line:
-            out.append((os.path.basename(m.group(1)), m.group(2), []))
+            name = m.group(1)
+            if "> " in name and not name.startswith(">"):
+                pass
+            elif name.startswith("> "):
+                name = name[2:]         # the verdict line glued to the end of a -dd token dump without final newline
+            out.append((os.path.basename(name), m.group(2), []))
     return [(a, b, c) for a, b, c in out]
 
 
@@ -165,6 +174,10 @@ def define_dense():
              ("trail.c", header42.header_text("trail.c") + "\n" + func + "\n\n"), ("trail.c", header42.header_text("trail.c") + "\n" + func + " \t "),
              ("trail.c", header42.header_text("trail.c") + "\n" + func + "\n \n"), ("cr.c", header42.header_text("cr.c") + "\n" + func.replace("\n", "\r\n")),
              ("blank.c", " "), ("blank.h", "\t\n")]
+    # lexical diagnostics with several highlights (the report must print the same one in every format)
+    lexd = header42.header_text("lexd.c") + "\n" + "int\tmain(void)\n{\n\tint\t\tn;\n\n\tn = 0789 + 0b123 + 0x1g2h;\n\tn = 'a\n\treturn (n);\n}\n"
+    edges.append(("lexd.c", lexd))
+    edges.append(("lexd.c", lexd + "char\t*g_s = \"never closed\n"))
     return edges + [("empty.c", ""), ("empty.h", ""), ("nl.c", "\n"), ("defs.c", h + body), ("defs.h", h2 + body2), ("file.c", header42.header_text("file.c") + "\n" + body),
             ("file.h", header42.header_text("file.h") + "\n" + body2.replace("DEFS_H", "FILE_H"))]
 
